@@ -17,26 +17,27 @@ _SRC = ['dispenso/thread_pool.cpp', 'dispenso/thread_pool_wake.cpp', 'dispenso/d
 _R16 = '_ZN8dispenso21ConcurrentObjectArenaINS_14MpmcRingBufferINS_12OnceFunctionELm16ELb1EEEmLm64EE7grow_byEm.4'
 _R4 = '_ZN8dispenso21ConcurrentObjectArenaINS_14MpmcRingBufferINS_12OnceFunctionELm4ELb1EEEmLm64EE7grow_byEm.4'
 
-_APIS = {
-    0: ('pool_sched', 'ThreadPool::schedule(f, ForceQueuingTag)'),
-    1: ('pool_placed', 'ThreadPool::schedulePlaced(f, ForceQueuingTag)'),
-    2: ('pool_token', 'ThreadPool::schedule / schedulePlaced(ProducerToken&, f, ForceQueuingTag)'),
-    3: ('ts_sched', 'TaskSet::schedule(f, ForceQueuingTag)'),
-    4: ('ts_bulk', 'TaskSet::scheduleBulk(n<=3, gen, ForceQueuingTag)'),
-    5: ('cts_sched', 'ConcurrentTaskSet::schedule(f, ForceQueuingTag), cost kHeavy/kLightweight symbolic'),
-    6: ('cts_bulk', 'ConcurrentTaskSet::scheduleBulk(n<=3, gen, ForceQueuingTag)'),
+_GROUPS = {
+    0: ('pool', 'ThreadPool::schedule(f, FQ) | schedulePlaced(f, FQ) | schedule(ProducerToken&, f, FQ) | '
+                'schedulePlaced(ProducerToken&, f, FQ) (symbolic choice)'),
+    1: ('sets', 'TaskSet::schedule(f, FQ) | ConcurrentTaskSet::schedule(f, FQ) with cost kHeavy/kLightweight '
+                '(symbolic choice)'),
+    2: ('bulk', 'TaskSet::scheduleBulk(n, gen, FQ) | ConcurrentTaskSet::scheduleBulk(n, gen, FQ) '
+                '(symbolic choice)'),
 }
 
 
-def _inst(api, n, tiers):
-    name, what = _APIS[api]
+def _inst(grp, n, tiers, count=None):
+    name, what = _GROUPS[grp]
+    if count is not None:
+        what += ' with n = %d' % count
     return {
-        'name': '%s_n%d' % (name, n), 'src': 'fq.cpp', 'engine': 'cbmc', 'shims': ['moodycamel'],
+        'name': '%s_n%d' % (name, n) + ('_c%d' % count if count is not None else ''), 'src': 'fq.cpp', 'engine': 'cbmc', 'shims': ['moodycamel'],
         'repo_sources': _SRC, 'rt_defs': {'VF_HAVE_THREAD_MODEL': 1}, 'models': ['aligned_alloc'],
         'allow_externals': ['_ZN8dispenso6detail27registerFineSchedulerQuantaEv'],
-        'defs': {'VF_N': n, 'VF_API': api, 'VF_MQ_CAP': 4},
+        'defs': {'VF_N': n, 'VF_GROUP': grp, 'VF_MQ_CAP': 4, 'VF_COUNT': count or 0},
         'cflags': ['-DDISPENSO_TUNE_STEAL_RING_SHARING=1'],
-        'unwind': 5, 'unwindset': {_R16: 17, _R4: 5}, 'timeout': 1500, 'tiers': tiers, 'must_reach': 'all',
+        'unwind': 3, 'nthreads': 1, 'unwindset': {_R16: 17, _R4: 5}, 'timeout': 600, 'tiers': tiers, 'must_reach': 'all',
         'bounds': ('one call of %s on a real ThreadPool(%d) (real constructor; steal-ring capacity 4 via '
                    'DISPENSO_TUNE_STEAL_RING_SHARING=1); symbolic pre-state: workRemaining_ in [-16,2^40], '
                    'poolLoadFactor_ in [0,2^40], numNotWorking_, signaling-wake on/off, central-queue hint, '
@@ -44,12 +45,17 @@ def _inst(api, n, tiers):
                    'steal-ring fill 0..4 (4 = full), one older task in the central queue (model capacity 4), caller = external '
                    'thread / worker of this pool (any ring index) / worker of another pool, inline depth 0..40, '
                    'parallel_for recursion level 0..3; task sets: load multiplier 1..8, outstanding count 0..2^20, '
-                   'canceled flag symbolic; bulk count 0..3' % (what, n)),
+                   'canceled flag symbolic' % (what, n)),
     }
 
 
-INSTANCES = []
-for _api in range(7):
-    INSTANCES.append(_inst(_api, 1, ['quick', 'thorough']))
-for _api in range(7):
-    INSTANCES.append(_inst(_api, 2, ['quick', 'thorough'] if _api in (1, 6) else ['thorough']))
+INSTANCES = [
+    _inst(0, 1, ['quick', 'thorough']),
+    _inst(1, 1, ['quick', 'thorough']),
+    _inst(2, 1, ['quick', 'thorough'], 2),
+    _inst(0, 2, ['quick', 'thorough']),
+    _inst(1, 2, ['thorough']),
+    _inst(2, 1, ['thorough'], 1),
+    _inst(2, 1, ['thorough'], 3),
+    _inst(2, 2, ['thorough'], 3),
+]
